@@ -108,6 +108,20 @@ def run(ctx):
             e2 = dict(env, GIT_DIR=gitdir)
             modes["GIT_DIR"] = subprocess.run([ctx["bins"]["sizer"]] + args, cwd=scratch, env=e2, stdout=subprocess.PIPE, stderr=subprocess.PIPE)
             modes["git -C"] = subprocess.run(["git", "-C", d, "sizer"] + args, cwd=scratch, env=env, stdout=subprocess.PIPE, stderr=subprocess.PIPE)
+            # the repository's own path holds bytes that matter to a careless reader of `git rev-parse` output: a line feed, blanks
+            # at either end, a tab (git then prints absolute paths: subdirectory, absolute GIT_DIR, git -C <subdir>)
+            if it < (2 if quick else 10):
+                for odd in ("projects\n2026", " lead and trail ", "tab\there"):
+                    parent = os.path.join(scratch, "odd%d-%d" % (it, len(modes)), odd)
+                    os.makedirs(parent, exist_ok=True)
+                    d3 = os.path.join(parent, "repo")
+                    shutil.copytree(d, d3, symlinks=True)
+                    sub3 = os.path.join(d3, "subdir-for-test")
+                    os.makedirs(sub3, exist_ok=True)
+                    label = "a repository below a directory named %r" % odd
+                    modes[label + ", from a subdirectory"] = subprocess.run([ctx["bins"]["sizer"]] + args, cwd=sub3, env=env, stdout=subprocess.PIPE, stderr=subprocess.PIPE)
+                    modes[label + ", through an absolute GIT_DIR"] = subprocess.run([ctx["bins"]["sizer"]] + args, cwd=scratch, env=dict(env, GIT_DIR=os.path.join(d3, ".git")), stdout=subprocess.PIPE, stderr=subprocess.PIPE)
+                    modes[label + ", as git -C <subdirectory> sizer"] = subprocess.run(["git", "-C", sub3, "sizer"] + args, cwd=scratch, env=env, stdout=subprocess.PIPE, stderr=subprocess.PIPE)
             # the caller stands in ANOTHER repository (its top level, a subdirectory, its .git) and names this one
             oth = S.Scenario()
             ob = oth.add({"kind": "blob", "data": b"other repository\n"})
